@@ -16,7 +16,24 @@ HOOK_COMMITS = []
 
 LEVEL_NOTE_COMMON = "Trusted: Lean 4.33 kernel (axioms propext, Classical.choice, Quot.sound only; audited per theorem on every run); the hand-written model, whose agreement with /repo is checked by differential execution on every run, not proved; the Go harness/canonicalisation; "
 
+def nt_cursor(suite, case, impl):
+    # non-trivial: a decode that succeeds, or an encode with an aliasing pattern / malformed input that is rejected
+    return any(l.startswith("impl ok") for l in case["lines"]) and len(case["lines"]) >= 4
+
+
 PROPS = {
+    "C14": {
+        "suites": [("cursor", 4000, 80000)],
+        "props": ["C14"],
+        "level": "proof",
+        "technique": "Lean 4 theorems on a byte-level model of Cursor.String/FromString (split/join inverse, decimal codec inverse) + differential correspondence incl. malformed and opaque inputs",
+        "level_text": "Round trip (roundtrip, opaque_roundtrip), layout choice (layout, short_layout_loses), and decoder behaviour on arbitrary byte strings (fromString_basic, reencode_equiv) are kernel-checked theorems for all ids/heights; the decoder model has no crash outcome and the real decoders are run under recover on malformed/foreign input on every run. The opaque codec is an abstract round-tripping codec (hypothesis of opaque_roundtrip, checked dynamically).",
+        "level_note": LEVEL_NOTE_COMMON + "strings.Split/strconv.ParseUint/ParseInt/%d modelled by hand-written byte functions; streamingfast/opaque treated as an abstract codec with dec(enc s)=s.",
+        "rule": "cases = 1-5 ops: String/FromString/ToOpaque/CursorFromOpaque/IsOnFinalBlock on generated cursors (4 steps + invalid steps, ids incl. empty/non-UTF8/colon, heights from the 64-bit boundary pool, all aliasing patterns) and on malformed strings (mutated bytes, dropped/duplicated segments, +1/007/-0/2^64 numbers, wrong prefixes, random bytes, random base64, bit-flipped opaque tokens); distinct = sha1 of op lines; non-trivial = at least one successful decode among >= 2 ops",
+        "nontrivial": nt_cursor,
+        "explanation": "theorems quantify over all byte strings / all cursors; correspondence compares encoders byte for byte and decoders field for field",
+        "assumptions": ["opaque.EncodeString/DecodeToString round-trip (checked on every generated string)"],
+    },
     "C19": {
         "suites": [("range", 3000, 60000)],
         "props": ["C19"],
